@@ -129,7 +129,11 @@ func (cr *cliReplayer) runConcrete(j *Job, m *ConcreteModel, aid string) *Native
 	}
 	if j.Entry == "VerifC16Main" {
 		if m.Bools["b_runfails_0"] {
-			for _, args := range [][]string{{"output", "stray-argument"}, {"output", "--no-such-flag"}, {"mkdir", "x", "y"}} {
+			// the contract of the App.Run stub ("a usage failure is a non-nil, non-ExitCoder error or an os.Exit(!= 0)
+			// inside Run") against the real urfave/cli as configured by main(): every class of usage failure
+			for _, args := range [][]string{{"output", "stray-argument"}, {"output", "--no-such-flag"}, {"mkdir", "x", "y"},
+				{"outptu"}, {"mkdirs", "--dry-run"}, {"help", "verfy"}, {"--no-such-global-flag"}, {"output", "--format"},
+				{"output", "--massive-timeout", "abc"}, {"verify", "--target-dir"}, {"template", "stray"}} {
 				code, _, _ := cr.exec(cr.bin, cr.dir, "- a\n", args...)
 				res.Asserts["usage"]++
 				if code == 0 {
